@@ -571,10 +571,10 @@ func run(t *tr.W, thorough bool) {
 		tipCase(w, 3+r.Intn(6))
 	}
 	w.close()
-	for _, sc := range []string{"false-partial", "store-disagrees", "hard"} {
+	for _, sc := range []string{"false-partial", "store-disagrees", "hard", "liars-apart", "liars-apart"} {
 		cpCase(t, r, sc)
 	}
-	for i := 0; i < 5*budget; i++ {
+	for i := 0; i < 4*budget; i++ {
 		cpCase(t, r, "random")
 	}
 	w = newWorld(t, r, nil)
